@@ -90,7 +90,7 @@ JOBS = [
     dict(name='c12_rle_flush_bitpack_form', entry='h_c12_flush_bitpack_form', functions=['flush_bitpack', 'write_varint'],
          unwind=33, est_s=40, **S12),
     dict(name='c12_rle_start_new_run_forms', entry='h_c12_start_new_run_forms', functions=['start_new_run', 'read_varint'],
-         unwind=18, replayer=FZ_SPEC,
+         unwind=7, replayer=FZ_SPEC,
          note='FINDING: a zero-length RLE run does not consume its repeated-value bytes (native demo /tmp/rle/demo_zero_run.c)',
          **W, **S12),
 ]
